@@ -222,6 +222,14 @@ func VerifC18_RoundTripIdent7() { zzIdentRoundTrip(7) }
 func VerifC18_RoundTripIdent8() { zzIdentRoundTrip(8) }
 func VerifC18_RoundTripIdent10() { zzIdentRoundTrip(10) }
 
+// a command with a flag parameter ("--name") whose name is symbolic: the flag
+// stays a flag, with that name, through expand and compact
+func VerifC18_RoundTripFlag() {
+	w := zzverif.StringFrom("w", 2, zzLetters)
+	short := []string{"--", "-"}[zzverif.Choice("dashes", 2)]
+	zzRoundTrip("command-flag", "! greet name: str! "+short+w+": bool = false {\n  > name\n}\n", "other")
+}
+
 // a symbolic symbol character at the start of a line, in contexts where it is
 // (or is not) a statement sigil
 const zzSigils = "@:$>+%<?~*!&=-"
@@ -246,6 +254,26 @@ func VerifC18_RoundTripSigil() {
 		}
 	}
 	zzRoundTrip("sigil-"+t.name, t.pre+c+t.post, name)
+}
+
+// a statement sigil followed directly - no blank - by symbolic characters:
+// digits, underscore, letters, brackets, quotes, operators ("> 0" written ">0",
+// "$_t = 1", ">(a)", ">-a" ...). Whatever the compact parser accepts must come
+// back as the same tree.
+func VerifC18_RoundTripSigilNoSpace2() { zzSigilNoSpace(2) }
+func VerifC18_RoundTripSigilNoSpace3() { zzSigilNoSpace(3) }
+
+func zzSigilNoSpace(n int) {
+	c := zzverif.StringFrom("c", 1, ">$?<%+~")
+	name := "other"
+	for k := 0; k < len(zzSigils); k++ {
+		if c == zzSigils[k:k+1] {
+			name = zzSigils[k : k+1]
+		}
+	}
+	rest := zzverif.StringFrom("rest", n, "0_a (\"=-[")
+	tail := []string{"", " = 1", "1"}[zzverif.Choice("tail", 3)]
+	zzRoundTrip("sigil-nospace", "@ GET /x {\n  $ a = 1\n  $ _a = 2\n  "+c+rest+tail+"\n  > a\n}\n", name)
 }
 
 // every statement sigil of the language in one program; one identifier symbolic
